@@ -89,6 +89,25 @@ def handleRescue (P : Params) : List String → String
     match natList' rest with
     | some v => if v.length = 4 then digestLine P v else "bad-op"
     | none => "bad-op"
+  -- conversion twins of the digest types: `[u8; 32]::from(d)` is `as_bytes`, `digests_as_elements` the elements in order
+  | "digconv" :: rest =>
+    match natList' rest with
+    | some v =>
+      if v.length = 8 ∧ v.all P.F.inv? then
+        let b := if P.name == "rp62" then digestBytes62 (v.take 4) else digestBytes64 (v.take 4)
+        s!"{hexOf b} {joinNat (v.map P.F.asInt)}"
+      else "bad-op"
+    | none => "bad-op"
+  -- `apply_jive_summation(initial, final)`: the four sums the Jive compression ends with
+  | "jivesum" :: rest =>
+    match natList' rest with
+    | some v =>
+      if P.jive ∧ v.length = 2 * P.width ∧ v.all P.F.inv? then
+        let (ini, fin) := (v.take P.width, v.drop P.width)
+        joinNat ((List.range 4).map fun i =>
+          P.F.asInt (P.F.add (P.F.add (P.F.add (ini.getD i 0) (ini.getD (4 + i) 0)) (fin.getD i 0)) (fin.getD (4 + i) 0)))
+      else "bad-op"
+    | none => "bad-op"
   | ["digread", h] =>
     match unhex h with
     | some bs =>
@@ -107,6 +126,7 @@ def field? : String → Option (FieldImpl × Bool × Bool)   -- (field, IS_CANON
 /-- the byte hashers: the output is the byte string fed to the opaque hash function -/
 def handleBytes (n : Nat) : List String → String
   | ["hash", _] => "-"
+  | "bdig" :: _ => "-"   -- the byte-digest container: judged by the harness oracle only
   | "hashel" :: f :: rest =>
     match field? f, natList' rest with
     | some (F, can, _), some v => hexOf (bytesFedElements F can (v.map F.new))
